@@ -5,6 +5,7 @@ import (
 	"io/ioutil"
 	"mime/multipart"
 	"net/http"
+	"sync/atomic"
 	"testing"
 
 	"verifharness/internal/gen"
@@ -72,5 +73,24 @@ func TestRegressSha512V0(t *testing.T) {
 		if isWrite(c) {
 			t.Fatalf("wrote to the cluster: %v", calls)
 		}
+	}
+}
+
+// fixed 0edfe19: the responses of the header-extraction requests were never
+// closed; with a daemon answering them with a body every hijacked request
+// left a connection open (the thorough tier ran out of descriptors after
+// 9994 cases per process).
+func TestRegressDaemonConnectionsBounded(t *testing.T) {
+	for i := 0; i < 400; i++ {
+		req, _ := http.NewRequest("POST", proxyURLs[0]+"/api/v0/pin/ls", nil)
+		resp, err := client.Do(req)
+		if err != nil {
+			t.Fatal(err)
+		}
+		ioutil.ReadAll(resp.Body)
+		resp.Body.Close()
+	}
+	if n := atomic.LoadInt64(&daemon.conns); n > 100 {
+		t.Fatalf("after 400 hijacked requests the daemon has %d connections open from the proxy", n)
 	}
 }
